@@ -78,7 +78,7 @@ def run_case(case):
     files, fattrs = [], []
     for e, nm in zip(eids, names):
         pel = dirrun.mk_pel(rng, e, plid=rng.choice([e, 0x50000001, rng.randrange(1, 0xFFFFFFFF)]),
-                            sev=rng.choice(SEVS), flags=rng.choice(FLAGS), creator=rng.choice(['O', 'B', 'H']))
+                            sev=rng.choice(SEVS), flags=rng.choice(FLAGS), creator=rng.choice(['O', 'B', 'H']), lead=True)
         data = bytes(__import__('harness.encode', fromlist=['encode']).encode(pel))
         files.append((nm, data))
         fattrs.append(dirrun.attrs(pel, nm, data))
